@@ -120,7 +120,10 @@ def run_one(args):
             ast.parse(newsrc)
         except SyntaxError:
             return (desc, "syntax", [])
-        t = subprocess.run("/venv/bin/python -m pytest -q -p no:cacheprovider -x 2>&1 | tail -1", shell=True, cwd=d, capture_output=True, text=True, timeout=300)
+        try:
+            t = subprocess.run("timeout 60 /venv/bin/python -m pytest -q -p no:cacheprovider -x 2>&1 | tail -1", shell=True, cwd=d, capture_output=True, text=True, timeout=120)
+        except subprocess.TimeoutExpired:
+            return (desc, "killed-by-tests", [])
         if " passed" not in t.stdout or "failed" in t.stdout or "error" in t.stdout.lower():
             return (desc, "killed-by-tests", [])
         fired = []
